@@ -235,6 +235,7 @@ def op_graph_hist(scn):
     if not ok:
         return {"ctor": "ERR"}
     out = {"ctor": c.gdigest(G), "steps": []}
+    kept = []
     for o in scn.get("ops", []):
         kind = o[0]
         if kind == "add":
@@ -251,11 +252,19 @@ def op_graph_hist(scn):
             if ok:
                 rest = [nm for i, nm in enumerate(c.names) if i != o[1]]
                 r = digest_graph(H, rest)
+                # the induced graph is an object of its own: edit it (the original's digest is
+                # taken below, after this edit) and keep it to see that later edits of the
+                # original do not reach it
+                if len(rest) >= 2:
+                    a, b = rest[(len(kept)) % len(rest)], rest[(len(kept) + 1) % len(rest)]
+                    call(H.add_edge, a, b, 1 + len(kept) % 2)
+                kept.append((H, rest, digest_graph(H, rest)))
             else:
                 r = "ERR"
         else:
             raise ValueError(kind)
         out["steps"].append({"r": r, "g": c.gdigest(G)})
+    out["kept_same"] = all(digest_graph(H, rest) == d for H, rest, d in kept)
     return out
 
 
